@@ -69,9 +69,7 @@ theorem pack_bgpls {c : Cfg} {b : Bytes} {cut : Cut} (h : split .type16Len16 c b
     · cases h
     · split at h
       · cases h
-      · split at h
-        · cases h
-        · cases h; simp only [pack]; simp at hp; simp [hp]
+      · cases h; simp only [pack]; simp at hp; simp [hp]
 
 theorem pack_flow {c : Cfg} {b : Bytes} {cut : Cut} (h : split .flow c b = some cut) (hr : cut.rest = [])
     (hc : Canonical .flow c b) : pack .flow cut.stored = some b := by
